@@ -14,6 +14,7 @@ MenuBad   == {R("get", <<"A">>), R("del", <<"A", "B">>), R("bad", <<>>)}
 MenuSingle == {R("get", <<"A">>), R("get", <<"B">>)}
 AKok   == {<<"ok", "", "">>}
 AKvals == {<<"ok", "", "">>, <<"nil", "", "">>, <<"mix", "", "">>}
+AKvalsE == AKvals \cup {<<"mixe", "", "">>, <<"empty", "", "">>}       \* also keys that hold the empty string
 AKerr  == {<<"ok", "", "">>, <<"err", "LOADING", "">>}
 AKerrRedir == {<<"ok", "", "">>, <<"err", "LOADING", "">>, <<"moved", "", "n2">>, <<"ask", "", "n1">>}
 AKredir == {<<"ok", "", "">>, <<"moved", "", "n1">>, <<"ask", "", "n2">>, <<"moved", "", "nx">>}
